@@ -213,7 +213,7 @@ static void case_td(Rng & rng, TD L, int mode, const std::string & tier, const P
     if (mode == 3) l << k0;
     l << n;
     ExpGen gen(rng, S, A);
-    double alpha = p.alpha, beta = p.beta;
+    double alpha = p.alpha, beta = p.beta, gamma = p.g; int nDisc = 0;
     for (int k = 0; k < n; ++k) {
         Exp e = gen.next(rng, p);
         if (mode == 1) {
@@ -239,7 +239,20 @@ static void case_td(Rng & rng, TD L, int mode, const std::string & tier, const P
                 case DYNA_: dy->setLearningRate(alpha); break;
             }
         }
-        l << e.s << e.a << e.s1 << e.a1 << e.r << alpha << beta;
+        // ... and so may the discount (modes without a fixed-point clause; DynaQ has no such setter)
+        if (rng.coin(1, 10) && (mode == 0 || mode == 2) && L != DYNA_) {
+            gamma = p.ugly ? pickD(rng, {0.9, 0.3, 0.99, 0.5}) : pickD(rng, {0.5, 0.25, 0.75, 0.875, 0.125});
+            switch (L) {
+                case QL_: ql->setDiscount(gamma); break;
+                case HYST_: hy->setDiscount(gamma); break;
+                case SARSA_: sa->setDiscount(gamma); break;
+                case ESARSA_: es->setDiscount(gamma); break;
+                case DQ_: dq->setDiscount(gamma); break;
+                case DYNA_: break;
+            }
+            ++nDisc;
+        }
+        l << e.s << e.a << e.s1 << e.a1 << e.r << alpha << beta << gamma;
         switch (L) {
             case QL_: ql->stepUpdateQ(e.s, e.a, e.s1, e.r); putTable(l, ql->getQFunction()); break;
             case HYST_: hy->stepUpdateQ(e.s, e.a, e.s1, e.r); putTable(l, hy->getQFunction()); break;
@@ -252,6 +265,7 @@ static void case_td(Rng & rng, TD L, int mode, const std::string & tier, const P
     l.emit();
     std::printf("#stat td-%s-mode%d 1\n", polKind ? (polKind == 1 ? "esarsa-greedyobj" : "esarsa-epsobj") : tdName[L], mode);
     std::printf("#stat steps %d\n", n);
+    if (nDisc) std::printf("#stat td-setDiscount %d\n", nDisc);
     if (p.ugly) std::printf("#stat ugly 1\n");
 }
 
@@ -273,7 +287,7 @@ static void run_tr(Line & l, Learner & lr, Rng & rng, const Params & p, const AI
     // setTraces(kept) (this is what Dyna2 does between its two learners)
     typename Learner::Traces kept;
     bool bookkeeping = g_book && rng.coin(1, 2);
-    int nClear = 0, nRestore = 0;
+    int nClear = 0, nRestore = 0, nParam = 0;
     auto snapshot = [&]() {
         const auto & tr = lr.getTraces();
         body << (size_t)tr.size();
@@ -282,11 +296,25 @@ static void run_tr(Line & l, Learner & lr, Rng & rng, const Params & p, const AI
     };
     for (int k = 0; k < n; ++k) {
         if (bookkeeping && !g_star.on && rng.coin(1, 6)) {
-            int ev = 1 + (int)rng.below(3);
+            int ev = 1 + (int)rng.below(8);
+            double val = 0.0;
+            // parameter setters between steps: 4 setDiscount, 5 setLambda, 6 setLearningRate, 7 setTolerance (<= 1), 8 setEpsilon
+            if (ev == 4) { val = p.ugly ? pickD(rng, {0.9, 0.3, 1.0, 0.7}) : pickD(rng, {0.5, 0.25, 0.75, 1.0, 0.875}); lr.setDiscount(val); }
+            else if (ev == 5) {
+                if constexpr (requires { lr.setLambda(0.5); }) { val = p.ugly ? pickD(rng, {0.0, 0.9, 0.3, 1.0}) : pickD(rng, {0.0, 0.25, 0.5, 1.0}); lr.setLambda(val); }
+                else ev = 1;
+            }
+            else if (ev == 6) { val = p.ugly ? pickD(rng, {0.1, 0.3, 1.0}) : pickD(rng, {1.0, 0.5, 0.25, 0.125}); lr.setLearningRate(val); }
+            else if (ev == 7) { val = p.ugly ? pickD(rng, {0.001, 0.1, 0.3, -1.0}) : pickD(rng, {0.125, 0.015625, 0.0, 0.5, 1.0}); if (p.tol > 1.0) val = p.tol; lr.setTolerance(val); }
+            else if (ev == 8) {
+                if constexpr (requires { lr.setEpsilon(0.5); }) { val = p.ugly ? pickD(rng, {0.1, 0.05, 0.9}) : pickD(rng, {0.0, 0.25, 0.5, 1.0}); lr.setEpsilon(val); }
+                else ev = 2;
+            }
             if (ev == 1) { lr.clearTraces(); ++nClear; }
             else if (ev == 2) kept = lr.getTraces();
-            else { lr.setTraces(kept); ++nRestore; }
-            body << ev; snapshot(); ++done;
+            else if (ev == 3) { lr.setTraces(kept); ++nRestore; }
+            else ++nParam;
+            body << ev; if (ev >= 4) body << val; snapshot(); ++done;
             continue;
         }
         Exp e = gen.next(rng, p);
@@ -312,6 +340,7 @@ static void run_tr(Line & l, Learner & lr, Rng & rng, const Params & p, const AI
     if (done) l << body.os.str();
     if (nClear) std::printf("#stat tr-clearTraces %d\n", nClear);
     if (nRestore) std::printf("#stat tr-setTraces %d\n", nRestore);
+    if (nParam) std::printf("#stat tr-parameter-setters %d\n", nParam);
     (void)sarsal;
 }
 
